@@ -634,7 +634,13 @@ class Producer(object):
                     # them all below. Set failure for errback to callers if we
                     # are all out of retries
                     failure, result = result, []  # no succesful results, retry
-                    failed_payloads = [(p, failure) for p in payloadsByTopicPart.values()]
+                    # Only what is still unresolved: payloads acknowledged (or failed) by an
+                    # earlier attempt of this batch must not be sent again.
+                    failed_payloads = [
+                        (p, failure)
+                        for t_and_p, p in payloadsByTopicPart.items()
+                        if not all(d.called for d in deferredsByTopicPart[t_and_p])
+                    ]
                 else:
                     # Was the request cancelled?
                     if not result.check(tid_CancelledError):
